@@ -5,8 +5,18 @@ import (
 	"strings"
 	"testing"
 
+	distiller "github.com/markusmobius/go-domdistiller"
 	"pgregory.net/rapid"
 )
+
+func isASCII(s string) bool {
+	for i := 0; i < len(s); i++ {
+		if s[i] >= 0x80 {
+			return false
+		}
+	}
+	return true
+}
 
 // C02 — distilled text is an ordered excerpt of the source.
 
@@ -20,12 +30,26 @@ func genC02(t *rapid.T) *Case {
 	g := newG(t, p)
 	c := &Case{Property: "C02", HTML: g.page()}
 	c.Opts = genOpts(t, 50)
+	if rapid.IntRange(0, 7).Draw(t, "reader") == 0 {
+		// byte-stream entry point: a UTF-8 page (declared as such) with a single non-ASCII word
+		c.Kind = "reader"
+		special := rapid.SampledFrom([]string{"café", "Zürich", "don’t", "naïve", "señor", "œuvre"}).Draw(t, "special")
+		// (English prose: that is what makes the charset guesser of the reader path prefer a legacy code page)
+		prose := "The quick brown fox jumps over the lazy dog while the committee considered whether the proposal should be adopted by the general assembly later this year and the members agreed that further discussion would be necessary before any decision could be made about the matter at hand "
+		para := "<p>" + prose + "We went to the " + special + " yesterday " + prose + g.words(3) + "</p>\n"
+		c.HTML = strings.Replace(c.HTML, "<body>\n", "<body>\n"+para, 1)
+	}
 	return c
 }
 
 func checkC02(c *Case) (*Violation, caseInfo) {
 	var info caseInfo
 	doc, out := applyHTML(c.HTML, c.Opts)
+	if c.Kind == "reader" {
+		opts := c.Opts.Build()
+		out = guarded(0, func() (*distiller.Result, error) { return distiller.ApplyForReader(strings.NewReader(c.HTML), opts) })
+		info.Classes = append(info.Classes, "entry:ApplyForReader")
+	}
 	if out.Panicked || out.Err != nil || out.Res == nil {
 		info.Skip = "apply-failed"
 		return nil, info
@@ -36,6 +60,18 @@ func checkC02(c *Case) (*Violation, caseInfo) {
 		return nil, info
 	}
 	res := out.Res
+	if c.Kind == "reader" {
+		// every word with non-ASCII characters must be a word of the (UTF-8) source
+		srcWords := map[string]bool{}
+		for _, w := range strings.Fields(punctToSpace(innerTextOf(doc))) {
+			srcWords[w] = true
+		}
+		for _, w := range strings.Fields(punctToSpace(res.Text)) {
+			if rxToken.FindString(w) != w && !srcWords[w] {
+				return violationf("C02 reader-misdecodes-utf8", "ApplyForReader emits the word %q, which is not a word of the UTF-8 source (the page declares charset=utf-8 and holds one non-ASCII word)", w), info
+			}
+		}
+	}
 
 	type view struct {
 		name string
@@ -84,6 +120,9 @@ func checkC02(c *Case) (*Violation, caseInfo) {
 		wordsHTML := visibleWordsOfOutput(res.Node)
 		for i, ws := range [][]string{wordsText, wordsHTML} {
 			for _, w := range ws {
+				if c.Kind == "reader" && rxToken.FindString(w) != w {
+					continue // words of the prose paragraph: checked above against the source's words
+				}
 				if inner := rxToken.FindString(w); inner != w {
 					// raw markup text of noscript & co. inside a retained data table or figure is
 					// class-B content, which C04 explicitly allows there
